@@ -1,18 +1,20 @@
-use palette::{LinSrgb, Okhsl, Okhsv, Xyz, Hsv, Oklab, convert::FromColorUnclamped, encoding::{Linear, Srgb}, white_point::D65};
-use palette::lms::BradfordLms;
+use palette::cam16::{Cam16Qch, Cam16Jch, Parameters, Surround};
+use palette::white_point::D65;
 fn main() {
-    let h: Hsv<Linear<Srgb>, f64> = Hsv::new(45.0, 0.0031308, 0.999999999);
-    let x0: Xyz<D65, f64> = Xyz::from_color_unclamped(h);
-    let l: BradfordLms<D65, f64> = BradfordLms::from_color_unclamped(h);
-    let x1: Xyz<D65, f64> = Xyz::from_color_unclamped(l);
-    let k: Okhsl<f64> = Okhsl::from_color_unclamped(l);
-    let kx: Okhsl<f64> = Okhsl::from_color_unclamped(x0);
-    let kd: Okhsl<f64> = Okhsl::from_color_unclamped(h);
-    let x2: Xyz<D65, f64> = Xyz::from_color_unclamped(k);
-    let lab: Oklab<f64> = Oklab::from_color_unclamped(x0);
-    println!("x0 {:?}\nx1 {:?}\nokhsl via lms {:?}\nokhsl via xyz {:?}\nokhsl direct {:?}\nx2 {:?}\noklab {:?}", x0, x1, k, kx, kd, x2, lab);
-    let r = pv::refmodel::ok::oklab_to_okhsl([lab.l, lab.a, lab.b]);
-    println!("ref okhsl {:?} -> back {:?}", r, pv::refmodel::ok::okhsl_to_oklab(r));
-    let back: Oklab<f64> = Oklab::from_color_unclamped(kx);
-    println!("palette okhsl->oklab {:?}", back);
+    let mut p = Parameters::<palette::cam16::StaticWp<D65>, f64>::default_static_wp(318.31);
+    p.surround = Surround::Dark;
+    let b = p.bake();
+    for (q, c) in [(1e-7, 1e-7), (1e-7, 1e-8), (1e-7, 1e-9), (1e-7, 2e-8), (1e-7, 3e-8), (1e-7, 5e-8), (1e-6, 1e-6), (1e-3, 1e-3), (1.0, 1.0), (10.0, 10.0), (1e-7, 0.0)] {
+        let k = Cam16Qch { brightness: q, chroma: c, hue: 237.53.into() };
+        let x = k.into_xyz(b);
+        println!("Q {q:e} C {c:e} -> {:?}", (x.x, x.y, x.z));
+    }
+    for h in [0.0, 90.0, 180.0, 237.53, 270.0] {
+        let k = Cam16Qch { brightness: 1e-7, chroma: 1e-7, hue: h.into() };
+        let x = k.into_xyz(b);
+        println!("h {h} -> {:?}", (x.x, x.y, x.z));
+        let k = Cam16Jch { lightness: 1e-17, chroma: 1e-7, hue: h.into() };
+        let x = k.into_xyz(b);
+        println!("  Jch h {h} -> {:?}", (x.x, x.y, x.z));
+    }
 }
